@@ -123,6 +123,8 @@ def c01a(ck, prog):
     gs = prog.find(r"^ohkami::router::r#final::Router::gen_openapi_doc$")
     if gs:
         g = gs[0]
+        # the method -> (name, tree) choice may be a helper method of the same Router
+        g = prog.inlined(g, 1, lambda caller, callee: callee.self_ty == "ohkami::router::r#final::Router" and callee.key != caller.key and len(callee.blocks) < 80)
         sites += 1
         rows = {}
         names = {}
